@@ -55,18 +55,24 @@ func loadAll(repo, verif string) (*Program, error) {
 	return loadProgram(repo, verif, []string{"./pkg/...", "./internal/...", "./cmd/..."})
 }
 
-func (p *Program) findFuncs(names []string) ([]*types.Func, error) {
-	var out []*types.Func
+func (p *Program) findFuncs(names []string) ([]target, error) {
+	var out []target
 	for _, n := range names {
 		i := strings.Index(n, ".")
 		if i < 0 {
 			return nil, fmt.Errorf("function name %q must be pkg.Key", n)
 		}
-		f, _ := p.lookupFunc(n[:i], n[i+1:])
+		key := n[i+1:]
+		lit := 0
+		if j := strings.LastIndex(key, "$"); j >= 0 {
+			fmt.Sscanf(key[j+1:], "%d", &lit)
+			key = key[:j]
+		}
+		f, _ := p.lookupFunc(n[:i], key)
 		if f == nil {
 			return nil, fmt.Errorf("function %s not found in /repo (contract target missing)", n)
 		}
-		out = append(out, f)
+		out = append(out, target{f, lit})
 	}
 	return out, nil
 }
@@ -187,8 +193,8 @@ type verifyOut struct {
 	err error
 }
 
-func runVerify(prog *Program, f *types.Func) (out verifyOut) {
-	out.fr = &FuncResult{Name: prog.declPkg[f].Types.Name() + "." + funcKey(f)}
+func runVerify(prog *Program, f target) (out verifyOut) {
+	out.fr = &FuncResult{Name: prog.declPkg[f.fn].Types.Name() + "." + funcKey(f.fn)}
 	defer func() {
 		if r := recover(); r != nil {
 			if ce, ok := r.(ContractError); ok {
